@@ -7,6 +7,12 @@
 (*   leaves   empty | pair | arr | slice | btree | hash   [op, kvs]        *)
 (*            ctxt (a ThreadLocalCtxt snapshot) | extent | spanctxt (the   *)
 (*            Extent / SpanCtxt views)                   [op, kvs]        *)
+(*            an extent leaf may say how the extent was obtained           *)
+(*            [op, src, a, b, kvs]: ToExtent of a Timestamp, a             *)
+(*            Range<Timestamp>, a Range<Option<Timestamp>> (any bounds),   *)
+(*            Option / & of an Extent, or what a Span / Metric / Event     *)
+(*            carrier hands out (built with new / with_extent); kvs is     *)
+(*            what the view must then hold (MCProps.tla ExtentSrcLeaves)   *)
 (*            macro [op, ents]   (a props!/evt!/emit! call site)           *)
 (*            none               (Option::None)                            *)
 (*   unary    opt (Some) | ref | box | arc | erased | dedup | asmap [op,t] *)
@@ -361,6 +367,27 @@ Channels == <<"for_each", "serde", "sval", "display", "debug">>
 SerB(t) == FE(t, 0, 0).vis
 SerIsEnum == Adm(SerB(tree), Segs(tree))
 
+\* Key storage.  The statement is about key TEXTS: a lookup key and an enumerated key are the
+\* same key iff their texts are equal, wherever the bytes live.  A configuration is therefore
+\* a collection together with the way its keys (and the lookup keys) are stored, and level A
+\* (Segs / Get above) must hold unchanged for every one of them:
+\*   literal     every stored key and every lookup key an allocation of its own
+\*   string      stored keys are owned `String`s
+\*   shared_buf  every key of the universe (stored and looked up) is a slice of ONE buffer:
+\*               the concatenation, in byte order, of the keys that are not a proper prefix
+\*               of another key; a key that is a prefix of another one is the slice at the
+\*               start of the first such key, so it shares its start address (the empty key
+\*               is the zero-length slice at offset 0)
+\*   str_ref / str_owned / str_shared   stored keys are `Str::new_ref` over the shared buffer,
+\*               `Str::new_owned`, `Str::new_shared`
+\* and, under every form, lookups by the prefixes (every length, the empty one included) cut
+\* from the front of each key as enumeration hands it out ("prefix"): Get of that text, i.e.
+\* First(Flat(t), text) - nothing unless the text itself is enumerated.
+\* The forms do not enter the state (level A does not see them): every checked collection is
+\* replayed under each of them.
+KeyForms == <<"literal", "string", "shared_buf", "str_ref", "str_owned", "str_shared">>
+LookupForms == <<"separate", "same_buffer", "prefix">>
+
 -----------------------------------------------------------------------------
 (* spec -> code: the collection and what the statement predicts for it *)
 Replay(t) ==
@@ -370,6 +397,8 @@ Replay(t) ==
      segs |-> Segs(t),
      keys |-> KeyOrder,
      channels |-> Channels,
+     keyforms |-> KeyForms,
+     lookupforms |-> LookupForms,
      get |-> [i \in 1..Len(KeyOrder) |-> [k |-> i, v |-> First(flat, i)]],
      uniqB |-> UniqB(t),
      enumB |-> FE(t, 0, 0).vis]
